@@ -390,6 +390,9 @@ func (d *drv) runCase(in *caseInput) {
 		if mz != nil {
 			// the subject's stored type (up to the numbering of array members)
 			want := append(append([]any{}, ni.Parts...), rdfType)
+			if ni.Multi {
+				want = append(want, 0) // several types: the rdf:type entries are indexed
+			}
 			found := false
 			for _, e := range c.entries {
 				if samePattern(e.Parts, want) && (hasIndex(want) || partsEqual(e.Parts, want)) && docgen.RenderGoValue(e.Value) == "str:"+id {
